@@ -1,5 +1,7 @@
 package raft
 
+import "time"
+
 // vh_IS: the InstallSnapshot handler from an arbitrary node state (with or without a partially
 // received snapshot file) and an arbitrary request (L1). The two yield points inside the handler
 // (applyCond.Wait, the unlocked fsm.Restore) run harness hooks.
@@ -149,6 +151,16 @@ func vh_IS() {
 			vAssert(vAnd(!partial.closed, len(partialRec.data) == plen), "C11.stale-term-leaves-partial-file")
 		}
 		return
+	}
+	// every current-term request is leader contact
+	vAssert(time.Since(r.lastContact) < vTimeMargin, "C16|C17.contact-recorded-for-every-current-term-request")
+	// C15.transfer (progress): the last chunk of a new snapshot at the expected offset installs it
+	expectedOff := int64(0)
+	if partial != nil && Lp >= L && pre.state == Follower && req.Term == pre.term {
+		expectedOff = int64(plen)
+	}
+	if req.Done && L > pre.applied && L > pre.lastIncludedIndex && req.Offset == expectedOff && waits == 0 {
+		vAssert(newVisible == 1, "C15.last-chunk-at-expected-offset-installs")
 	}
 	if newVisible == 0 {
 		vCover("not-installed")
